@@ -903,7 +903,17 @@ func (h *handler) asyncSyncAdChain(ctx context.Context) {
 	}
 	syncer, updatePeerstore, err := h.makeSyncer(peerInfo, true)
 	if err != nil {
+		// Failed to start the sync, so allow another announce for the same
+		// CID and report the failure.
+		if h.subscriber.receiver != nil {
+			h.subscriber.receiver.UncacheCid(nextCid)
+		}
 		log.Errorw("Cannot make syncer for announce", "err", err, "peer", h.peerID)
+		h.subscriber.inEvents <- SyncFinished{
+			Cid:    nextCid,
+			PeerID: h.peerID,
+			Err:    err,
+		}
 		return
 	}
 
